@@ -4,7 +4,7 @@ import ast
 from ..cfg import witness
 from ..core import AnalysisError, u, walk_local, enclosing_stmt
 from ..lib import (construct, std_facts, def_of, facts_at, calls_of_node,
-                   returns_of, in_subtree, default_of, kwarg)
+                   returns_of, in_subtree, default_of, kwarg, format_sites)
 from ..resolve import store_accesses
 from ..cfg import describe_path
 from .common import allowed_stores
@@ -50,8 +50,7 @@ def run(ctx):
   falls = [g.nodes[a] for a, k in g.pred[g.exit.id] if g.nodes[a].kind != 'return']
   rs = [n for n in g.live_nodes() if n.kind == 'raise_stmt' and not n.loops]
   okio = not falls and len(rs) == 1 and isinstance(rs[0].ast.exc, ast.Call) and u(rs[0].ast.exc.func) in ('IOError', 'OSError', 'FileNotFoundError')
-  msg = okio and any(isinstance(c, ast.Call) and isinstance(c.func, ast.Attribute) and c.func.attr == 'format' and any(u(a) == u(outer[0].iter) for a in c.args)
-                     for c in ast.walk(rs[0].ast))
+  msg = okio and any(any(u(a) == u(outer[0].iter) for a in ops) for _c, _t, ops in format_sites(rs[0].ast))
   ctx.check(okio and msg, 'C14.ioerror', con, 'a name nobody can read raises IOError naming the locations searched (and nothing is applied)',
             'the fall-through of the search no longer raises an IOError that names the locations searched', pf.loc(), instance='ioerror')
   # nested call forwards the option
